@@ -336,8 +336,12 @@ ComparePhys(A, B) ==
       lamPos == both /\ (A.sol.lam > 100 \/ B.sol.lam > 100)
       \* relabelling leaves the geometry alone: defects hit both runs alike, so nothing is excused there
       kfName == IF kind = "relabel" THEN "" ELSE IF contaminated THEN "KF_TangentDefects" ELSE IF lamPos THEN "KF_MultiplierNotRotationInvariant" ELSE ""
-      numeric == SetIf(both /\ cond /\ tensBad # {}, P \o ".tension")
-                 \cup SetIf(both /\ cond /\ Len(A.e.pres) > 0 /\ Len(A.e.pres) = Len(B.e.pres) /\ presBad # {}, P \o ".pressure")
+      \* under relabelling a case hit by a tangent defect is hit alike in both runs, but its assembled system is then not
+      \* the true one, so the conditioning-derived tolerance does not apply: tensions / pressures are not compared
+      \* (structure and coefficient pairs still are)
+      numOK == both /\ cond /\ ~(kind = "relabel" /\ contaminated)
+      numeric == SetIf(numOK /\ tensBad # {}, P \o ".tension")
+                 \cup SetIf(numOK /\ Len(A.e.pres) > 0 /\ Len(A.e.pres) = Len(B.e.pres) /\ presBad # {}, P \o ".pressure")
       structural == SetIf(A.e.internal # B.e.internal, P \o ".internal_set")
                     \cup SetIf(A.e.junctions # B.e.junctions /\ ~contaminated, P \o ".equation_set")
                     \cup SetIf(Len(A.e.pres) # Len(B.e.pres), P \o ".pressure_missing")
@@ -345,7 +349,7 @@ ComparePhys(A, B) ==
   IN [fails |-> structural \cup (IF kfName = "" THEN numeric \cup coefF ELSE {}),
       kf |-> IF kfName = "" THEN {} ELSE {kfName \o ":" \o c : c \in numeric \cup (IF kfName = "KF_TangentDefects" THEN coefF ELSE {})}
              ,
-      hits |-> {P \o ".compared"} \cup SetIf(both /\ cond, P \o ".tension") \cup SetIf(Len(A.e.pres) > 0, P \o ".pressure")
+      hits |-> {P \o ".compared"} \cup SetIf(numOK, P \o ".tension") \cup SetIf(Len(A.e.pres) > 0, P \o ".pressure")
                \cup SetIf(Len(A.e.coefs) > 0, P \o ".coefficients") \cup SetIf(kfName = "" /\ both /\ cond, P \o ".clean_case"),
       rejected |-> ~both \/ ~cond,
       extraFails |-> IF kfName # "KF_TangentDefects" /\ kfName # "" THEN coefF ELSE {}]
